@@ -84,3 +84,93 @@ Qed.
 
 Theorem keymax_is_1024 : keymax = 1024.
 Proof. reflexivity. Qed.
+
+(* ---- public-key material (BigZ instance) ------------------------------------------------------------- *)
+From JoseV Require Import Jwk.KeyCheckPk Crypto.BigNum Crypto.Ec Jose.PkAlgs Gen.Tables.
+
+(* RFC 7518 3.3 / 3.5: RSA signature keys of at least 2048 bits = 256 octets, on both sides *)
+Theorem rsa_sig_key_accepted jwk :
+  rsa_sig_key_ok jwk = true ->
+  exists n e, rsa_pub jwk = Some (n, e) /\ (256 <= octet_len B (of_bytes B n))%nat.
+Proof.
+  unfold rsa_sig_key_ok. destruct (rsa_pub jwk) as [[n e]|]; [|discriminate].
+  intro H. exists n, e. split; [reflexivity|]. apply Nat.leb_le. exact H.
+Qed.
+
+(* what an imported EC key satisfies: named curve, coordinates are field elements, the curve equation
+   holds, and a present private value is in [1, n) with d G = (x, y) *)
+Theorem ec_key_accepted jwk cv X Y :
+  ec_pub jwk = Some (cv, X, Y) ->
+  exists c x y,
+    get_opt_str s_crv jwk = OStr c /\ curve_by_name c = Some cv /\
+    b64m s_x jwk = Some x /\ b64m s_y jwk = Some y /\
+    X = imod B (of_bytes B x) (c_p (curve_of B cv)) /\ Y = imod B (of_bytes B y) (c_p (curve_of B cv)) /\
+    valid_public B (curve_of B cv) X Y = true /\
+    (forall dv, lookup s_d jwk = Some dv ->
+       exists ds d, dv = JStr ds /\ dec ds = Some d /\
+                    valid_private B (curve_of B cv) (of_bytes B d) X Y = true).
+Proof.
+  unfold ec_pub. destruct (get_opt_str Jwe.s_kty jwk) as [|t|]; try discriminate.
+  destruct (get_opt_str s_crv jwk) as [|c|]; try discriminate.
+  destruct (bytes_eqb t t_EC); [|discriminate].
+  destruct (curve_by_name c) as [cv0|] eqn:EC; [|discriminate].
+  destruct (b64m s_x jwk) as [x0|]; [|discriminate]. destruct (b64m s_y jwk) as [y0|]; [|discriminate].
+  cbv zeta.
+  destruct (valid_public B (curve_of B cv0) (imod B (of_bytes B x0) (c_p (curve_of B cv0)))
+                         (imod B (of_bytes B y0) (c_p (curve_of B cv0)))) eqn:VP; [|discriminate].
+  destruct (lookup s_d jwk) as [dv|] eqn:LD.
+  - destruct dv as [| | | |ds| |]; try discriminate. destruct (dec ds) as [d|] eqn:ED; [|discriminate].
+    destruct (valid_private B (curve_of B cv0) (of_bytes B d) (imod B (of_bytes B x0) (c_p (curve_of B cv0)))
+                            (imod B (of_bytes B y0) (c_p (curve_of B cv0)))) eqn:VV; [|discriminate].
+    intro H. inversion H; subst. exists c, x0, y0. repeat split; try assumption; try reflexivity.
+    intros dv H2. inversion H2; subst. exists ds, d. repeat split; assumption.
+  - intro H. inversion H; subst. exists c, x0, y0. repeat split; try assumption; try reflexivity.
+    intros dv H2. discriminate.
+Qed.
+
+Theorem valid_public_spec {T} (ops : intops T) c x y :
+  valid_public ops c x y = in_range ops x (c_p c) && in_range ops y (c_p c) && on_curve ops c x y.
+Proof. reflexivity. Qed.
+
+Theorem valid_private_spec {T} (ops : intops T) c d x y :
+  valid_private ops c d x y = in_range1 ops d (c_n c) && point_eqb ops (smul ops c d (base c)) (Aff x y).
+Proof. reflexivity. Qed.
+
+(* only the named curves *)
+Theorem named_curves c cv :
+  curve_by_name c = Some cv -> In (c, cv) [(c_P256, p256); (c_P384, p384); (c_P521, p521); (c_K256, secp256k1)].
+Proof.
+  unfold curve_by_name.
+  destruct (bytes_eqb c c_P256) eqn:E1; [apply bytes_eqb_eq in E1; subst; intro H; inversion H; simpl; auto|].
+  destruct (bytes_eqb c c_P384) eqn:E2; [apply bytes_eqb_eq in E2; subst; intro H; inversion H; simpl; auto|].
+  destruct (bytes_eqb c c_P521) eqn:E3; [apply bytes_eqb_eq in E3; subst; intro H; inversion H; simpl; auto|].
+  destruct (bytes_eqb c c_K256) eqn:E4; [apply bytes_eqb_eq in E4; subst; intro H; inversion H; simpl; auto 6|].
+  discriminate.
+Qed.
+
+(* the signing / verifying / agreeing entry points go through these tests *)
+Theorem pk_sign_algs_test_keys a :
+  In a pk_sign_algs -> mem (sa_name a) rs_names = true ->
+  sa_sig_ok a = rsa_sig_key_ok /\ sa_ver_ok a = rsa_sig_key_ok.
+Proof.
+  unfold pk_sign_algs. intros H M. apply in_map_iff in H. destruct H as [e [<- _]].
+  destruct (mem (a_name e) hs_names) eqn:Hh.
+  - exfalso. change (mem (a_name e) rs_names = true) in M.
+    unfold hs_names, rs_names, mem in *. cbn [existsb] in *.
+    repeat match goal with H : (_ || _) = true |- _ => apply orb_true_iff in H; destruct H end;
+      repeat match goal with H : bytes_eqb _ _ = true |- _ => apply bytes_eqb_eq in H end; try discriminate.
+    all: match goal with H1 : a_name ?x = _, H2 : a_name ?x = _ |- _ => rewrite H1 in H2; discriminate H2 end.
+  - destruct (mem (a_name e) rs_names) eqn:Hr.
+    + split; reflexivity.
+    + cbn [sa_name] in M. congruence.
+Qed.
+
+Theorem ecdh_needs_valid_keys prv pub z :
+  ecdh_x prv pub = Some z -> ec_ok prv = true /\ ec_ok pub = true /\ has_d prv = true.
+Proof.
+  unfold ecdh_x, ec_ok, has_d. destruct (get_opt_str s_crv prv) as [|c1|]; try discriminate.
+  destruct (get_opt_str s_crv pub) as [|c2|]; try discriminate.
+  destruct (bytes_eqb c1 c2); [|discriminate]. destruct (curve_by_name c1); [|discriminate].
+  destruct (ec_pub prv); [|discriminate]. destruct (ec_pub pub) as [[[? ?] ?]|]; [|discriminate].
+  destruct (b64m s_d prv); [|discriminate]. intros _. repeat split.
+Qed.
